@@ -23,7 +23,8 @@ RULES = [
 PLAN_REQ = "forall|k: int| 0 <= k < write_plan@.len() ==> (#[trigger] write_plan@[k]).2 < batch@.len() && write_plan@[k].0.offset + write_plan@[k].0.limit <= 0x7fff_ffff_ffff && write_plan@[k].1 <= write_plan@[k].0.limit && batch@[write_plan@[k].2 as int]@.len() <= 0x4000_0000"
 UNIT = dict(
     name="batch_submit",
-    props=["C04", "C16", "C01", "C08"],
+    props=["C04", "C16", "C01", "C08", "C11"],
+    implicit_props=["C04", "C16", "C01", "C08"],  # the properties every obligation of the unit counts for; the others only through labelled clauses
     prelude=["core_types.rs", "str_ext.rs", "engine.rs", "sys_model.rs"],
     assumptions=[
         "R14 region: submit_batch_via_io_uring from `let mut buffers` to `// Phase 3` (phase 3 is unit batch_complete); ring creation is outside",
